@@ -49,7 +49,7 @@ LSIO = Rec("LimitedStringIO", size=Int, limit=Int, _buf=Str, _newline=Union(Cons
 
 contract(
     "liquid2.output:LimitedStringIO.write",
-    props=["C06"],
+    props=["C06", "C02"],
     params={"self": LSIO, "__s": Str},
     pre=["self.size >= 0"],
     post=[
